@@ -33,13 +33,18 @@ type verifRow struct{ name, password, pull string }
 func VerifUserTable() {
 	K := symapi.Param("K", 3)
 	prov := &verifProvider{}
+	var ref []verifRow
+	// the history starts from an empty table or from one that a previous run left on disk
+	if symapi.Bool("tableOnDisk") {
+		prov.stored = []*User{{Name: "bob", Password: "p1", PullAccess: "/a"}}
+		ref = []verifRow{{"bob", "p1", "/a"}}
+	}
 	m := &manager{m: make(map[string]*User)}
 	m.Reset(prov)
 	names := []string{"bob", "Bob", "eve"}
 	lower := []string{"bob", "bob", "eve"}
 	pws := []string{"p1", "p2"}
 	pulls := []string{"/a", "/b/*"}
-	var ref []verifRow
 	// what the provider has durably: updated by every Flush the manager performs. A flush may
 	// be skipped only while the table equals what was last handed over.
 	flushAndReload := func() {
@@ -111,6 +116,11 @@ func VerifUserTable() {
 			symapi.Assert(i < len(all) && all[i].Password == ref[i].password, "update-keeps-password-unless-asked")
 			symapi.Assert(i < len(all) && all[i].PullAccess == ref[i].pull, "rights-as-last-saved")
 			symapi.Assert(m.Get(ref[i].name) == all[i], "map-and-list-hold-the-same-user")
+			// the compiled rights follow the stored access string (also after delete + re-create)
+			if i < len(all) {
+				symapi.Assert(all[i].ValidatePermission("/a", PullRight) == (ref[i].pull == "/a"), "effective-rights-follow-the-saved-string")
+				symapi.Assert(all[i].ValidatePermission("/b/c", PullRight) == (ref[i].pull == "/b/*"), "effective-rights-follow-the-saved-string")
+			}
 		}
 	}
 	// the shutdown flush: whatever is pending reaches the provider, a restart loads it
